@@ -362,17 +362,19 @@ theorem binary_num (k : String) (p q : PyNum) (x y : Val) (hx : number x = some 
   have hny : isNull y = false := by cases y <;> simp [number] at hy <;> rfl
   have htx : toPyNum x = some p := by cases x <;> simp [number] at hx <;> simp [toPyNum, hx]
   have hty : toPyNum y = some q := by cases y <;> simp [number] at hy <;> simp [toPyNum, hy]
+  have hbx : isBoolV x = false := by cases x <;> simp [number] at hx <;> rfl
+  have hby : isBoolV y = false := by cases y <;> simp [number] at hy <;> rfl
   rcases hk with rfl | rfl | rfl | rfl
   · simp only [if_true] at hs
     have : pySubtract x y = (p.sub q).toVal := by
       cases x <;> simp [number] at hx <;> cases y <;> simp [number] at hy <;>
         simp [pySubtract, toPyNum, hx, hy]
-    simp [binaryArith, hnx, hny, this, hs]
+    simp [binaryArith, hnx, hny, hbx, hby, this, hs]
   · have h1 : ¬ ("$divide" = "$subtract") := by decide
     simp only [h1, if_false, if_true] at hs
     split at hs
     · cases hs
-    · simp [binaryArith, hnx, hny, htx, hty, hs]
+    · simp [binaryArith, hnx, hny, hbx, hby, htx, hty, hs]
   · have h1 : ¬ ("$mod" = "$subtract") := by decide
     have h2 : ¬ ("$mod" = "$divide") := by decide
     simp only [h1, h2, if_false, if_true] at hs
@@ -380,15 +382,15 @@ theorem binary_num (k : String) (p q : PyNum) (x y : Val) (hx : number x = some 
     · cases hs
     · rename_i hz
       have hz' : q.isZero = false := by simpa using hz
-      simp [binaryArith, hnx, hny, htx, hty, pyMod_eq p q hz', hs]
+      simp [binaryArith, hnx, hny, hbx, hby, htx, hty, pyMod_eq p q hz', hs]
   · have h1 : ¬ ("$pow" = "$subtract") := by decide
     have h2 : ¬ ("$pow" = "$divide") := by decide
     have h3 : ¬ ("$pow" = "$mod") := by decide
     simp only [h1, h2, h3, if_false, if_true] at hs
     have := pyPowT_ok p q r hs
-    simp [binaryArith, hnx, hny, htx, hty, this]
+    simp [binaryArith, hnx, hny, hbx, hby, htx, hty, this]
 
-theorem dateMinus_pure (u : Int) (y : Val) (hb : isBoolO (some y) = false) (r : Val)
+theorem dateMinus_pure (u : Int) (y : Val) (r : Val)
     (hs : dateMinus u y = .ok r) : pySubtract (.date u none) y = .ok r := by
   cases y with
   | date u' o' =>
@@ -397,12 +399,11 @@ theorem dateMinus_pure (u : Int) (y : Val) (hb : isBoolO (some y) = false) (r : 
     | some off => simp [dateMinus] at hs
   | int n => simpa [dateMinus, pySubtract, toPyNum] using hs
   | dbl m e => simpa [dateMinus, pySubtract, toPyNum] using hs
-  | bool x => simp [isBoolO] at hb
   | _ => simp [dateMinus] at hs
 
-/-- the binary arithmetic operators on operands without booleans -/
+/-- the binary arithmetic operators (a boolean operand is rejected by the rules as by the code) -/
 theorem binary_pure (k : String) (hk : k = "$subtract" ∨ k = "$divide" ∨ k = "$mod" ∨ k = "$pow")
-    (a b : Option Val) (hbb : isBoolO b = false)
+    (a b : Option Val)
     (r : Val) (hs : arith2 k a b = .ok r) :
     binaryArith k (a.getD .null) (b.getD .null) = .ok r := by
   unfold arith2 at hs
@@ -432,8 +433,11 @@ theorem binary_pure (k : String) (hk : k = "$subtract" ∨ k = "$divide" ∨ k =
             split at hs
             · rename_i hsub
               subst hsub
-              have := dateMinus_pure u y hbb r hs
-              simp [binaryArith, hnx, hny, this]
+              have := dateMinus_pure u y r hs
+              have hby : isBoolV y = false := by
+                cases y <;> first | rfl | simp [dateMinus] at hs
+              have hbx : isBoolV (Val.date u none) = false := rfl
+              simp [binaryArith, hnx, hny, hbx, hby, this]
             · cases hs
           | some off => simp [number] at hs
         | int i =>
